@@ -167,9 +167,7 @@ type dfs struct {
 // and result record, merged afterwards in subtree order, so the outcome does not depend on
 // scheduling). The single model driver is shared under a mutex.
 func exhaustive(cfg Config, r *hx.Result, zk string, depth int) int {
-	root := frame{handle: d2.VerifNewUris(cluster)}
-	root.rec = root.handle.Contents()
-	root.canon = canonContents(root.rec)
+	root := newRootFrame()
 	variant := int(cfg.Seed % 1000)
 	var askMu sync.Mutex
 	top := &dfs{cfg: cfg, r: r, c: new(d2.Client), zk: zk, maxDepth: depth, variant: variant, askMu: &askMu}
@@ -195,7 +193,22 @@ func exhaustive(cfg Config, r *hx.Result, zk string, depth int) int {
 			for i := range jobs {
 				x := &dfs{cfg: cfg, r: hx.NewResult("C19", cfg.Module, cfg.Seed, cfg.Tier), c: new(d2.Client), zk: zk,
 					maxDepth: depth, variant: variant, askMu: &askMu}
-				x.walk(frontier[i].anc, frontier[i].hist)
+				// the worker re-creates the snapshots on its path with its own client instead of
+				// sharing the caller's: an implementation that (wrongly) writes into an earlier
+				// snapshot must show up as an oracle failure, not as a data race between workers
+				anc := []frame{newRootFrame()}
+				scratch := hx.NewResult("C19", cfg.Module, cfg.Seed, cfg.Tier)
+				ok := true
+				for j := range frontier[i].hist {
+					var f frame
+					if f, ok = step(scratch, x.c, zk, anc, frontier[i].hist[:j+1]); !ok {
+						break
+					}
+					anc = append(anc, f)
+				}
+				if ok {
+					x.walk(anc, frontier[i].hist)
+				}
 				subs[i] = x
 			}
 		}()
@@ -225,6 +238,13 @@ func exhaustive(cfg Config, r *hx.Result, zk string, depth int) int {
 		}
 	}
 	return nodes
+}
+
+func newRootFrame() frame {
+	root := frame{handle: d2.VerifNewUris(cluster)}
+	root.rec = root.handle.Contents()
+	root.canon = canonContents(root.rec)
+	return root
 }
 
 type visited struct {
